@@ -1,7 +1,9 @@
 package verifsim
 
 import (
+	"encoding/json"
 	"fmt"
+	"strings"
 	"time"
 )
 
@@ -16,9 +18,9 @@ func init() {
 			{Name: "l3-bursts", Fn: scnC10(3), Weight: 3},
 			{Name: "l2-handoff-orders", Fn: scnC10(2), Weight: 1},
 		},
-		Rule: "2-6 sessions with 0-6 actions each delivered as bursts on both pipes at once (everything within 0-300 ms of simulated time, taped chunking / short reads / buffer sizes), " +
+		Rule: "the daemon starts on an events output that already holds 0-3 earlier events (restart); 2-6 sessions with 0-6 actions each delivered as bursts on both pipes at once (everything within 0-300 ms of simulated time, taped chunking / short reads / buffer sizes), " +
 			"schedule policies random / PCT / biased / run-to-block with a scheduling point inside every output write and between every write and hand-off; monitor per write call: exactly one JSON event + newline, " +
-			"no event written twice, every UserAction preceded by the UserLogin with the same subjects.pid; thorough tier additionally under the race detector; " +
+			"no event written twice, every UserAction preceded by the UserLogin with the same subjects.pid; afterwards the file content (O_APPEND / no-O_APPEND semantics of the simulated file) keeps the earlier events and consists of whole JSON lines; thorough tier additionally under the race detector; " +
 			"non-trivial = both pipelines wrote and at least one preemption happened; distinct = distinct (history hash, schedule hash)",
 		Quick: 3000, Thorough: 150000,
 		Race: true, RaceQuick: 160, RaceThorough: 8000,
@@ -38,6 +40,14 @@ func scnC10(level int) scenarioFn {
 		if level == 3 {
 			p.Knobs["auditLogChanBufSize"] = []int{10000, 1, 2, 8}[rc.Spec.Choose(4, "knob.chan")]
 			p.Knobs["bufio"] = []int{4096, 16, 64}[rc.Spec.Choose(3, "knob.bufio")]
+		}
+		// the daemon is restarted on an output file that already holds events of an earlier run
+		var earlier []byte
+		if level == 3 {
+			for i, n := 0, rc.Spec.Choose(4, "earlier.events"); i < n; i++ {
+				earlier = append(earlier, []byte(fmt.Sprintf(`{"metadata":{"auditId":"earlier-%d"},"type":"UserLogin","loggedAt":"1999-12-31T23:00:0%dZ","source":{"type":"IP","value":"192.0.2.%d"},"outcome":"succeeded","subjects":{"loggedAs":"earlier","pid":"%d"},"component":"sshd"}`+"\n", i, i, i, 100+i))...)
+			}
+			p.InitialOutput = earlier
 		}
 		pol := pipelinePolicy(rc)
 		seenKey := map[string]int{}
@@ -98,6 +108,23 @@ func scnC10(level int) scenarioFn {
 		}
 		if !rc.Failed() && (p.Returned || p.ReadDone) {
 			rc.Abort("system under test stopped during a fault-free history: %v %v", p.RetErr, p.ReadErr)
+		}
+		if level == 3 && !rc.Failed() {
+			// the file as a reader sees it afterwards: earlier events intact, every line one event
+			content := p.disk.Content()
+			if !strings.HasPrefix(string(content), string(earlier)) {
+				rc.Fail("C10", "earlier-events-destroyed", "the events output held %d bytes of earlier events when the daemon started; they are no longer intact: file now starts with %q", len(earlier), truncate(string(content), 200))
+			} else {
+				for i, ln := range strings.Split(strings.TrimSuffix(string(content), "\n"), "\n") {
+					if len(content) == 0 {
+						break
+					}
+					if !json.Valid([]byte(ln)) {
+						rc.Fail("C10", "torn-line-in-file", "line %d of the events output is not one complete JSON event: %q", i+1, truncate(ln, 200))
+						break
+					}
+				}
+			}
 		}
 		if level == 3 && !rc.Failed() && len(p.BadWrites) > 0 {
 			rc.Fail("C10", "torn-or-merged-write", "an output write is not exactly one JSON event followed by a newline: %s", p.BadWrites[0])
